@@ -348,3 +348,93 @@ func extName(fn *ssa.Function) string {
 	}
 	return fnPkgPath(fn) + "." + fn.Name()
 }
+
+// InModulePkg: is this SSA package part of the analysed module?
+func (p *Prog) InModulePkg(pk *ssa.Package) bool {
+	return pk != nil && pk.Pkg != nil && strings.HasPrefix(pk.Pkg.Path(), modulePath)
+}
+
+
+var constMapCache = map[*ssa.Global]map[string]AV{}
+var constMapDone = map[*ssa.Global]bool{}
+
+// ConstMap: the contents of a package-level map variable that is built by its package initialiser from constant keys
+// and values and is never written, replaced or handed out afterwards (every other use is a lookup, a range or len);
+// nil when the variable is not such a table.  Keys are rendered like abstract values (AV.String()).
+func (p *Prog) ConstMap(g *ssa.Global) map[string]AV {
+	if constMapDone[g] {
+		return constMapCache[g]
+	}
+	constMapDone[g] = true
+	if g.Pkg == nil || !p.InModulePkg(g.Pkg) {
+		return nil
+	}
+	if _, isMap := derefT(g.Type()).Underlying().(*types.Map); !isMap {
+		return nil
+	}
+	init := g.Pkg.Func("init")
+	if init == nil {
+		return nil
+	}
+	var mk *ssa.MakeMap
+	stores := 0
+	ok := true
+	for _, fn := range p.ModuleFuncs() {
+		instrsOf(fn, func(in ssa.Instruction) {
+			switch x := in.(type) {
+			case *ssa.Store:
+				if x.Addr == g {
+					stores++
+					if m, isMk := x.Val.(*ssa.MakeMap); isMk && fn == init {
+						mk = m
+					} else {
+						ok = false
+					}
+				}
+			case *ssa.UnOp:
+				if x.X == g {
+					for _, r := range *x.Referrers() {
+						switch u := r.(type) {
+						case *ssa.Lookup:
+							if u.X != x {
+								ok = false
+							}
+						case *ssa.Range:
+						case *ssa.Call:
+							if b, isB := u.Call.Value.(*ssa.Builtin); !isB || b.Name() != "len" {
+								ok = false
+							}
+						case *ssa.DebugRef:
+						default:
+							ok = false
+						}
+					}
+				}
+			}
+		})
+	}
+	if !ok || mk == nil || stores != 1 {
+		return nil
+	}
+	tab := map[string]AV{}
+	for _, r := range *mk.Referrers() {
+		switch u := r.(type) {
+		case *ssa.MapUpdate:
+			k, kok := u.Key.(*ssa.Const)
+			v, vok := u.Value.(*ssa.Const)
+			if !kok || !vok {
+				return nil
+			}
+			tab[constAV(k).String()] = constAV(v)
+		case *ssa.Store:
+			if u.Addr != g {
+				return nil
+			}
+		case *ssa.DebugRef:
+		default:
+			return nil
+		}
+	}
+	constMapCache[g] = tab
+	return tab
+}
